@@ -743,11 +743,10 @@ def make_case(real, cfg, script, kind, do_shrink=True):
             c.impl = None       # the stored input is the shrunk one; correspondence not compared for it
     return c
 
-def explore(real, seed_stream, n_hist, length):
-    r = rng.make(seed_stream)
+def explore(real, r, n_hist, length, offset=0):
     cases = []; lines = []; spans = []
     for h in range(n_hist):
-        kind = KINDS[h % len(KINDS)]
+        kind = KINDS[(offset + h) % len(KINDS)]
         cfg, script = gen_script(r, kind, length)
         c = make_case(real, cfg, script, kind)
         cases.append(c)
@@ -757,11 +756,23 @@ def explore(real, seed_stream, n_hist, length):
             lines += ls
     return cases, lines, spans
 
-def fill_model(cases, lines, spans):
-    outs = wire.run_driver(PROPERTY, lines, timeout=1500)
-    for c, start, n in spans:
-        c.model = '\n'.join(outs[start:start + n])
-    return cases
+def _digest(s):
+    import hashlib
+    return 'sha1:%s len=%d' % (hashlib.sha1(s.encode('ascii', 'replace')).hexdigest(), len(s))
+
+def fill_model(cases, lines, spans, driver_ok=True):
+    """run the model on the batch; agreeing histories keep only a digest of the (large) state-dump transcript"""
+    nsteps = sum(c.impl.count('\n') for c in cases if c.impl)
+    if driver_ok and lines:
+        outs = wire.run_driver(PROPERTY, lines, timeout=1500)
+        for c, start, n in spans:
+            c.model = '\n'.join(outs[start:start + n])
+    for c in cases:
+        if c.impl is not None and (c.model is None or c.model == c.impl):
+            d = _digest(c.impl)
+            c.impl = d
+            if c.model is not None: c.model = d
+    return nsteps
 
 def first_diff(c):
     a = c.impl.split('\n'); b = c.model.split('\n')
@@ -798,17 +809,22 @@ def _tuplify(x):
 def run(ctx):
     build = leanbuild.ensure(PROPERTY, THEOREMS, thorough=ctx.thorough, extractors=['ChanState'])
     real = Real()
-    n_hist, length = (6300, 120) if ctx.thorough else (700, 60)
+    n_hist, length = (10000, 150) if ctx.thorough else (2100, 60)
     cases = []; lines = []; spans = []
     for name, cfg, script in load_corpus():
         c = make_case(real, cfg, script, 'corpus', do_shrink=False)
         cases.append(c)
         if c.impl is not None:
             ls = script_lines(cfg, script); spans.append((c, len(lines), len(ls))); lines += ls
-    cs, ls, sp = explore(real, 'c10', n_hist, length)
-    spans += [(c, a + len(lines), n) for c, a, n in sp]; lines += ls; cases += cs
-    if build.driver_ok:
-        fill_model(cases, lines, spans)
+    nev = fill_model(cases, lines, spans, build.driver_ok)
+    r = rng.make('c10')
+    done = 0
+    while done < n_hist:
+        n = min(350, n_hist - done)
+        cs, ls, sp = explore(real, r, n, length, offset=done)
+        nev += fill_model(cs, ls, sp, build.driver_ok)
+        cases += cs
+        done += n
     # known-finding witnesses replayed on the implementation
     status = {}
     for f in verdict.load_findings(PROPERTY):
@@ -819,11 +835,10 @@ def run(ctx):
     def search(disagreements, broken):
         os.environ['VERIF_SEED'] = str(ctx.seed + 7919)
         try:
-            more, _, _ = explore(real, 'c10-search', 600, 80)
+            more, _, _ = explore(real, rng.make('c10-search'), 600, 80)
         finally:
             os.environ['VERIF_SEED'] = str(ctx.seed)
         return [c for c in more if c.oracle_ok is False]
-    nev = sum(c.impl.count('\n') for c in cases if c.impl)
     return verdict.conclude(PROPERTY, ctx.tier, ctx.seed, build, cases, search=search, finding_status=status, rule=RULE,
                             trusted_base=TRUSTED,
                             assumptions=['Python asserts enabled', 'server uses rfc1459 casemapping and the CHANMODES classes of the bot tables',
